@@ -8,6 +8,7 @@ All statements are for every input / every value / every radix — no bound on l
 Helper lemmas: `NoulithModel/Lemmas/C15Basic.lean`.
 -/
 import NoulithModel.Lemmas.C15Basic
+import NoulithModel.Lemmas.C15Float
 
 namespace Noulith.C15
 open Noulith Noulith.Lex Noulith.LitSpec
@@ -196,14 +197,14 @@ def BodyOK (e : Char) : List StrItem → Prop
     ItemOK e it ∧ BodyOK e its ∧
       (∀ ds, it = .uni .none ds → ∀ c ∈ (renderBody its ++ [e]).head?, isHexDigit c = false)
 
-theorem head?_append_cons (a : List Char) (e : Char) (rest : List Char) :
+theorem headOpt_append_cons (a : List Char) (e : Char) (rest : List Char) :
     (a ++ e :: rest).head? = (a ++ [e]).head? := by
   cases a <;> rfl
 
 theorem push_mk (c : Char) (acc rest : List Char) :
     (StrRes.mk [] acc rest).push c = ⟨[], c :: acc, rest⟩ := rfl
 
-theorem ofNat_toNat' (c : Char) : Char.ofNat c.toNat = c := Char.ofNat_toNat c
+theorem char_ofNat_toNat (c : Char) : Char.ofNat c.toNat = c := Char.ofNat_toNat c
 
 /-- **the escape table is decoded exactly**: lexing the spelling of a well-formed body yields the
 scalar values its items spell, consumes exactly the body and the closing delimiter, and emits no
@@ -232,7 +233,7 @@ theorem lexStr_body (e : Char) (he1 : e ≠ '\\') (its : List StrItem)
         simp [StrItem.denote] at hv
         subst hv
         simp only [StrItem.render, List.cons_append, List.nil_append]
-        rw [lexStr_plain e c _ hit.1 hit.2, ih', push_mk, List.map_cons, ofNat_toNat']
+        rw [lexStr_plain e c _ hit.1 hit.2, ih', push_mk, List.map_cons, char_ofNat_toNat]
       | nl =>
         simp [StrItem.denote] at hv; subst hv
         simp only [StrItem.render, List.cons_append, List.nil_append]
@@ -278,7 +279,7 @@ theorem lexStr_body (e : Char) (he1 : e ≠ '\\') (its : List StrItem)
           | none =>
             have hstop : Stops isHexDigit (renderBody its ++ e :: rest) := by
               intro c hc
-              rw [head?_append_cons] at hc
+              rw [headOpt_append_cons] at hc
               exact hnext ds rfl c hc
             obtain ⟨h1, h2, h3⟩ := u_parts_nobracket ds hit.1 (hit.2 rfl) _ hstop
             simp only [StrItem.render, Bracket.opening, Bracket.closing, List.cons_append, List.nil_append,
@@ -385,5 +386,266 @@ theorem format_literal_token (e : Char) (he : e = '\'' ∨ e = '"') (its : List 
     rw [if_pos he, hb]; rfl
   simp only [List.cons_append]
   rw [lex_of_step _ _ _ _ hstep]; rfl
+
+
+/-- a program that is one string literal evaluates to the string its escapes spell -/
+theorem string_literal_exact (e : Char) (he : e = '\'' ∨ e = '"') (its : List StrItem) (hok : BodyOK e its)
+    (vs : List Nat) (hden : denoteBody its = some vs) :
+    parseEvalLit (e :: renderBody its ++ [e]) = .ok (.str (vs.map Char.ofNat)) := by
+  have h := string_escape_exact e he its hok vs hden []
+  rw [lex_nil] at h
+  unfold parseEvalLit
+  simp only [h]
+  have : ([Token.stringLit (vs.map Char.ofNat)].any Token.isPanic) = false := rfl
+  simp only [this, Bool.false_eq_true, if_false, stripComments_single (.stringLit _) (by simp), atomLit, evalLit]
+
+/-- a `\u` escape that spells a number which is not a Unicode scalar value (a surrogate, or anything
+above 0x10FFFF — with any number of digits: the accumulator saturates instead of overflowing) is
+refused with the `Invalid` token "u result too big" followed by the string so far -/
+theorem string_u_too_big (e : Char) (he : e ≠ '\\') (ds : List HexDigit) (hds : ∀ d ∈ ds, d.val < 16)
+    (hbad : isScalar (ofDigits 16 (ds.map HexDigit.val)) = false) (rest : List Char) :
+    lexStr e ('\\' :: 'u' :: '{' :: (ds.map HexDigit.char ++ '}' :: rest)) = strFail .uTooBig rest := by
+  obtain ⟨h1, h2, h3⟩ := u_parts_bracket '{' '}' (fun _ => rfl) (by decide) ds hds rest
+  rw [lexStr_u_some e he _ '}' _ h1 h3, h2, validScalar_min]
+  have : validScalar (ofDigits 16 (ds.map HexDigit.val)) = false := hbad
+  simp [this]
+
+/-- non-vacuity of `string_u_too_big`: `"\u{fffffffff}"` (F17) -/
+example : lexStr '"' ('\\' :: 'u' :: '{' :: ((List.replicate 9 (⟨15, false⟩ : HexDigit)).map HexDigit.char ++ '}' :: ['"']))
+    = strFail .uTooBig ['"'] :=
+  string_u_too_big '"' (by decide) _ (by decide) (by decide) _
+
+/-! ## 4. Float and imaginary literals: the text handed to the `f64` parser -/
+
+/-- **`float_token_text`** (see `float_step` in Lemmas/C15Float.lean) -/
+theorem float_token_text (l : FloatLit) (hwf : l.wf = true) (rest : List Char) (hstop : FloatStop l rest) :
+    lex (l.render ++ rest) = floatTok l :: lex rest := by
+  obtain ⟨ip, frac, exp, suffix⟩ := l
+  obtain ⟨c, cs, h1, h2⟩ := float_step ip frac exp suffix hwf rest hstop
+  rw [h1, lex_of_step c cs _ _ h2]; rfl
+
+theorem floatStop_nil (l : FloatLit) : FloatStop l [] := by
+  unfold FloatStop
+  repeat' split
+  all_goals simp [Stops]
+
+/-- a program that is one float / imaginary literal evaluates to the float whose decimal text is
+the literal's digits (the decimal-to-binary conversion is `str::parse::<f64>`, external) -/
+theorem float_literal_exact (l : FloatLit) (hwf : l.wf = true) :
+    parseEvalLit l.render = .ok (if l.suffix.isImag then .imag l.text else .float l.text) := by
+  have h := float_token_text l hwf [] (floatStop_nil l)
+  rw [List.append_nil, lex_nil] at h
+  unfold parseEvalLit
+  simp only [h]
+  cases hi : l.suffix.isImag
+  · have : ([floatTok l].any Token.isPanic) = false := by simp [floatTok, hi, Token.isPanic]
+    simp only [this, Bool.false_eq_true, if_false]
+    rw [stripComments_single _ (by simp [floatTok, hi])]
+    simp [floatTok, hi, atomLit, evalLit]
+  · have : ([floatTok l].any Token.isPanic) = false := by simp [floatTok, hi, Token.isPanic]
+    simp only [this, Bool.false_eq_true, if_false]
+    rw [stripComments_single _ (by simp [floatTok, hi])]
+    simp [floatTok, hi, atomLit, evalLit]
+
+/-- non-vacuity: `12.5E-3` -/
+example : lex "12.5E-3".toList = [.floatLit "12.5e-3".toList] := by
+  have := float_token_text ⟨[1, 2], some [5], some (true, true, [3]), .none⟩ (by decide) [] (by simp [FloatStop, Stops])
+  rw [lex_nil] at this
+  exact this
+
+/-! ## 5. Format strings: the brace scanner is total -/
+
+/-- the nesting counter of the brace scanner never goes below zero -/
+theorem fmtLoop_level_nonneg (st : FmtState) (cs : List Char) (h0 : 0 ≤ st.level) (st' : FmtState)
+    (h : fmtLoop st cs = .ok st') : 0 ≤ st'.level := by
+  fun_induction fmtLoop st cs <;> simp_all
+  all_goals (rename_i ih; apply ih; omega)
+
+
+theorem fmtFlagsOfComment_err (fl : FmtFlags) (cs : List Char) (e : FmtErr)
+    (h : fmtFlagsOfComment fl cs = .error e) : e = .padLength := by
+  fun_induction fmtFlagsOfComment fl cs <;> simp_all
+
+theorem fmtFlagsOfComments_err (fl : FmtFlags) (cms : List (List Char)) (e : FmtErr)
+    (h : fmtFlagsOfComments fl cms = .error e) : e = .padLength := by
+  induction cms generalizing fl with
+  | nil => simp [fmtFlagsOfComments] at h
+  | cons c cms ih =>
+    unfold fmtFlagsOfComments at h
+    split at h
+    · exact ih _ h
+    · rename_i e' he
+      cases h
+      exact fmtFlagsOfComment_err _ _ _ he
+
+/-- the nested lexer never panics, so `fmtExpr` never reports that -/
+theorem fmtExpr_no_panic (acc : List Char) : fmtExpr acc ≠ .error .lexPanic := by
+  unfold fmtExpr
+  have h : (lex acc).any Token.isPanic = false := by
+    rw [List.any_eq_false]; intro t ht; simp [lex_no_panic acc t ht]
+  simp only [h, Bool.false_eq_true, if_false]
+  split
+  · simp
+  · split
+    · simp
+    · rename_i e he
+      have := fmtFlagsOfComments_err _ _ _ he
+      subst this
+      simp
+
+theorem fmtLoop_no_panic (st : FmtState) (cs : List Char) : fmtLoop st cs ≠ .error .lexPanic := by
+  fun_induction fmtLoop st cs <;> simp_all
+  rename_i e he
+  intro h
+  subst h
+  exact fmtExpr_no_panic _ he
+
+/-- **`format_scanner_total`**: the brace scanner of `parse_format_string` always returns — the
+parts, or one of its four syntax errors; it never fails because the nested lexer panicked, and
+(`fmtLoop_level_nonneg`) its nesting counter never goes negative -/
+theorem format_scanner_total (s : List Char) :
+    (∃ parts, fmtScan s = .ok parts) ∨ fmtScan s = .error .unmatchedRight ∨ fmtScan s = .error .unmatchedLeft
+      ∨ fmtScan s = .error .emptyExpr ∨ fmtScan s = .error .padLength := by
+  have hnp := fmtLoop_no_panic {} s
+  unfold fmtScan
+  split
+  · split
+    · simp
+    · simp
+  · rename_i e he
+    cases e <;> simp_all
+
+/-- a body without braces is all literal characters -/
+theorem fmtLoop_plain (acc : List Char) (ret : List FmtPart) (s : List Char) (h : ∀ c ∈ s, c ≠ '{' ∧ c ≠ '}') :
+    fmtLoop ⟨0, acc, ret⟩ s = .ok ⟨0, acc, ret ++ s.map .lit⟩ := by
+  induction s generalizing ret with
+  | nil => simp [fmtLoop]
+  | cons c cs ih =>
+    have hc := h c (by simp)
+    rw [fmtLoop]
+    simp only [if_true, hc.1, hc.2, if_false]
+    rw [ih _ (fun c' hc' => h c' (by simp [hc']))]
+    simp
+
+theorem fmtScan_plain (s : List Char) (h : ∀ c ∈ s, c ≠ '{' ∧ c ≠ '}') : fmtScan s = .ok (s.map .lit) := by
+  unfold fmtScan
+  have := fmtLoop_plain [] [] s h
+  simp only [List.nil_append] at this
+  rw [show ({} : FmtState) = ⟨0, [], []⟩ from rfl, this]
+  simp
+
+theorem fmtLiteralOnly_map (s : List Char) : fmtLiteralOnly (s.map .lit) = some s := by
+  induction s with
+  | nil => rfl
+  | cons c cs ih => simp [fmtLiteralOnly, ih]
+
+
+/-- a format string without braces evaluates to its decoded body -/
+theorem format_literal_exact (e : Char) (he : e = '\'' ∨ e = '"') (its : List StrItem) (hok : BodyOK e its)
+    (vs : List Nat) (hden : denoteBody its = some vs)
+    (hnb : ∀ c ∈ vs.map Char.ofNat, c ≠ '{' ∧ c ≠ '}') :
+    parseEvalLit ('F' :: e :: renderBody its ++ [e]) = .ok (.str (vs.map Char.ofNat)) := by
+  have h := format_literal_token e he its hok vs hden []
+  rw [lex_nil] at h
+  unfold parseEvalLit
+  simp only [h]
+  have : ([Token.formatString (vs.map Char.ofNat)].any Token.isPanic) = false := rfl
+  simp only [this, Bool.false_eq_true, if_false, stripComments_single (.formatString _) (by simp), atomLit,
+    fmtScan_plain _ hnb, fmtLiteralOnly_map]
+  rfl
+
+/-! ## 6. Bytes literals: exact below `\x80`; `\x80`..`\xff` are the known defect F23 -/
+
+theorem utf8Encode_ofNat (v : Nat) (h : v.isValidChar) : utf8Encode (Char.ofNat v) = utf8 v := by
+  unfold utf8Encode utf8
+  rw [toNat_ofNat v h]
+
+theorem denote_valid (e : Char) (it : StrItem) (hok : ItemOK e it) (v : Nat) (h : it.denote = some v) :
+    v.isValidChar := by
+  cases it with
+  | plain c => simp [StrItem.denote] at h; subst h; exact c.valid
+  | hex d1 d2 =>
+    simp [StrItem.denote] at h; subst h
+    have := hok.1; have := hok.2
+    exact Or.inl (by omega)
+  | uni b ds =>
+    simp only [StrItem.denote] at h
+    split at h
+    · rename_i hs
+      simp at h; subst h
+      simp [isScalar] at hs
+      rcases hs with hs | hs
+      · exact Or.inl hs
+      · exact Or.inr ⟨by omega, by omega⟩
+    · simp at h
+  | _ => simp [StrItem.denote] at h; subst h; exact Or.inl (by omega)
+
+/-- no `\xHH` escape with `HH ≥ 0x80` -/
+def LowHex : List StrItem → Prop
+  | [] => True
+  | .hex d1 d2 :: its => 16 * d1.val + d2.val < 128 ∧ LowHex its
+  | _ :: its => LowHex its
+
+/-- bytes literals are exact when no hex escape is ≥ `\x80` -/
+theorem bytes_of_body (e : Char) (its : List StrItem) (hok : BodyOK e its) (hlow : LowHex its)
+    (vs : List Nat) (hden : denoteBody its = some vs) :
+    denoteBodyBytes its = some ((vs.map Char.ofNat).flatMap utf8Encode) := by
+  induction its generalizing vs with
+  | nil => simp [denoteBody] at hden; subst hden; rfl
+  | cons it its ih =>
+    obtain ⟨hit, hrest, _⟩ := hok
+    unfold denoteBody at hden
+    split at hden
+    · rename_i v vs' hv hvs
+      simp at hden; subst hden
+      have hvalid := denote_valid e it hit v hv
+      have hl' : LowHex its := by cases it <;> simp_all [LowHex]
+      have ih' := ih hrest hl' vs' hvs
+      unfold denoteBodyBytes
+      have hb : it.denoteBytes = some (utf8Encode (Char.ofNat v)) := by
+        rw [utf8Encode_ofNat v hvalid]
+        cases it with
+        | hex d1 d2 =>
+          simp [StrItem.denote] at hv; subst hv
+          have : 16 * d1.val + d2.val < 128 := hlow.1
+          simp [StrItem.denoteBytes, utf8, this]
+        | _ => simp [StrItem.denoteBytes, hv]
+      rw [hb, ih']
+      simp
+    · simp at hden
+
+
+/-- **`bytes_literal_exact_partial`**: a bytes literal without `\xHH` escapes ≥ `\x80` denotes exactly
+the bytes its items spell.  (Missing for the full statement: hex escapes ≥ 0x80, see below.) -/
+theorem bytes_literal_exact_partial (e : Char) (he : e = '\'' ∨ e = '"') (its : List StrItem)
+    (hok : BodyOK e its) (hlow : LowHex its) (vs : List Nat) (hden : denoteBody its = some vs) :
+    ∃ bs, denoteBodyBytes its = some bs ∧ parseEvalLit ('B' :: e :: renderBody its ++ [e]) = .ok (.bytes bs) := by
+  refine ⟨_, bytes_of_body e its hok hlow vs hden, ?_⟩
+  have h := bytes_literal_token e he its hok vs hden []
+  rw [lex_nil] at h
+  unfold parseEvalLit
+  simp only [h]
+  have : ([Token.bytesLit ((vs.map Char.ofNat).flatMap utf8Encode)].any Token.isPanic) = false := rfl
+  simp only [this, Bool.false_eq_true, if_false, stripComments_single (.bytesLit _) (by simp), atomLit, evalLit]
+
+/-- the full-strength statement for bytes literals (what the property text asks for) -/
+def bytes_literal_exact_statement : Prop :=
+  ∀ (e : Char), (e = '\'' ∨ e = '"') → ∀ (its : List StrItem), BodyOK e its → ∀ bs, denoteBodyBytes its = some bs →
+    parseEvalLit ('B' :: e :: renderBody its ++ [e]) = .ok (.bytes bs)
+
+/-- **refutation (F23)**: `B"\xff"` denotes `[195, 191]` in the code (model = code, see the
+correspondence run), while its escape spells the single byte `255` -/
+theorem bytes_hex_escape_refuted : ¬ bytes_literal_exact_statement := by
+  intro h
+  have hok : BodyOK '"' [.hex ⟨15, false⟩ ⟨15, false⟩] := by simp [BodyOK, ItemOK]
+  have h1 := h '"' (Or.inr rfl) [.hex ⟨15, false⟩ ⟨15, false⟩] hok [255] (by decide)
+  have h2 := bytes_literal_token '"' (Or.inr rfl) [.hex ⟨15, false⟩ ⟨15, false⟩] hok [255] (by decide) []
+  rw [lex_nil] at h2
+  unfold parseEvalLit at h1
+  simp only [h2] at h1
+  have : ([Token.bytesLit (([255].map Char.ofNat).flatMap utf8Encode)].any Token.isPanic) = false := rfl
+  simp only [this, Bool.false_eq_true, if_false, stripComments_single (.bytesLit _) (by simp), atomLit, evalLit] at h1
+  revert h1
+  decide
 
 end Noulith.C15
